@@ -407,31 +407,47 @@ func (s *Sim) checkFunds(li *ledgerInst, c *chainState, e *Entry) {
 // checkCommitUniqueness: at most one entry per idempotency key (C07), per
 // reference (C11), per reverted transaction (C10); evaluated at every commit.
 func (s *Sim) checkCommitUniqueness(li *ledgerInst, c *chainState, e *Entry) {
+	// When C14 is the target these once-only rules are evaluated too, under the pseudo-property
+	// "C14x": the C14 engine then asks whether the break goes away when the previews are removed.
+	p07, p11, p10 := s.propOrC14x("C07"), s.propOrC14x("C11"), s.propOrC14x("C10")
 	// C07, by request: entries produced by requests that carried the same key
-	if e.Marker != "" && s.wants("C07") {
+	if e.Marker != "" && p07 != "" {
 		if o := s.opByMarker(e.Marker); o != nil && o.Op.IK != "" && o.Ledger == li.idx {
 			c.effectsByIK[o.Op.IK] = append(c.effectsByIK[o.Op.IK], e)
 			if es := c.effectsByIK[o.Op.IK]; len(es) > 1 {
-				s.violate("C07", "ik-applied-twice", fmt.Sprintf("%s: requests carrying idempotency key %q took effect as entries %d (%s) and %d (%s)", li.name, o.Op.IK, es[0].Idx, es[0].Type, e.Idx, e.Type),
+				s.violate(p07, "ik-applied-twice", fmt.Sprintf("%s: requests carrying idempotency key %q took effect as entries %d (%s) and %d (%s)", li.name, o.Op.IK, es[0].Idx, es[0].Type, e.Idx, e.Type),
 					append(s.restartFeature(es[0], e), "kind="+o.Op.Kind)...)
 			}
 		}
 	}
-	if ik := e.Row.IK; ik != "" && len(c.byIK[ik]) > 1 && s.wants("C07") {
+	if ik := e.Row.IK; ik != "" && len(c.byIK[ik]) > 1 && p07 != "" {
 		a, b := c.byIK[ik][0], e
-		s.violate("C07", "ik-applied-twice", fmt.Sprintf("%s: idempotency key %q is carried by entries %d and %d", li.name, ik, a.Idx, b.Idx), s.restartFeature(a, b)...)
+		s.violate(p07, "ik-applied-twice", fmt.Sprintf("%s: idempotency key %q is carried by entries %d and %d", li.name, ik, a.Idx, b.Idx), s.restartFeature(a, b)...)
 	}
-	if e.Tx != nil && e.Tx.Reference != "" && len(c.byRef[e.Tx.Reference]) > 1 && s.wants("C11") {
+	if e.Tx != nil && e.Tx.Reference != "" && len(c.byRef[e.Tx.Reference]) > 1 && p11 != "" {
 		a := c.byRef[e.Tx.Reference][0]
-		s.violate("C11", "duplicate-reference", fmt.Sprintf("%s: reference %q is carried by transactions %s (entry %d) and %s (entry %d)", li.name, e.Tx.Reference, a.Tx.ID, a.Idx, e.Tx.ID, e.Idx), s.restartFeature(a, e)...)
+		s.violate(p11, "duplicate-reference", fmt.Sprintf("%s: reference %q is carried by transactions %s (entry %d) and %s (entry %d)", li.name, e.Tx.Reference, a.Tx.ID, a.Idx, e.Tx.ID, e.Idx), s.restartFeature(a, e)...)
 	}
-	if e.Type == "REVERTED_TRANSACTION" && s.wants("C10") {
+	if e.Type == "REVERTED_TRANSACTION" && p10 != "" {
 		if len(c.revertsOf[e.RevertedID]) > 1 {
 			a := c.revertsOf[e.RevertedID][0]
-			s.violate("C10", "reverted-twice", fmt.Sprintf("%s: transaction %s is reverted by entries %d and %d", li.name, e.RevertedID, a.Idx, e.Idx), s.restartFeature(a, e)...)
+			s.violate(p10, "reverted-twice", fmt.Sprintf("%s: transaction %s is reverted by entries %d and %d", li.name, e.RevertedID, a.Idx, e.Idx), s.restartFeature(a, e)...)
 		}
-		s.checkRevertShape(li, c, e)
+		if p10 == "C10" {
+			s.checkRevertShape(li, c, e)
+		}
 	}
+}
+
+// propOrC14x: the property itself when it is wanted, "C14x" when C14 is the target, "" otherwise.
+func (s *Sim) propOrC14x(prop string) string {
+	if s.wants(prop) {
+		return prop
+	}
+	if s.target == "C14" {
+		return "C14x"
+	}
+	return ""
 }
 
 func (s *Sim) restartFeature(a, b *Entry) []string {
